@@ -1215,6 +1215,13 @@ int main(int argc, char** argv) {
             argc, argv, P2HEXParams, P2HEXParamCnt, ParUnprocessed, "P2HEXCMD",
             ParamError);
 
+    /* -r sets the window of the segment chosen with -segment */
+
+    if ((ForceSegment != SegNone) && (ForceSegment != SegCode)) {
+        StartAdr[ForceSegment] = StartAdr[SegCode];
+        StopAdr[ForceSegment]  = StopAdr[SegCode];
+    }
+
     if (!QuietMode) {
         as_snprintf(Ver, sizeof(Ver), "P2HEX/C V%s", Version);
         WrCopyRight(Ver);
